@@ -670,7 +670,9 @@ func c18WrapGen(g *hx.Gen) {
 }
 
 var c18StaticAEs = []string{"", "gzip", "br", "zstd", "zstd, gzip", "gzip, zstd", "br, gzip", "gzip,br,zstd", " zstd ,gzip", "zstd;q=1, gzip",
-	"gzip;q=0, zstd", "identity", "*", "deflate", "gzip;q=0", "ZSTD, gzip", "br,gzip;q=0"}
+	"gzip;q=0, zstd", "identity", "*", "deflate", "gzip;q=0", "ZSTD, gzip", "br,gzip;q=0",
+	// other spellings of a refusal, and parameters on offered codings
+	"gzip;q=0.0", "gzip; q=0", "gzip;Q=0", "br;q=0.000, gzip;q=0.", "zstd;q=0;x=1, br;q=0.8", "gzip ;q=0.00 , zstd;q=0.5"}
 
 var c18StaticBlocks = []string{"", "||0|", hx.HS("*") + "||0|", "||10|", "|" + hx.HS("/m3") + "|0|", "||200|"}
 
